@@ -50,7 +50,15 @@ def gen(ctx, T):
                     k = j
             return k
         # truncation at byte positions (all of them in thorough; a sample in quick)
-        cuts = list(range(0, len(data))) if ctx.tier != "quick" or len(data) < 120 else sorted(rnd.sample(range(len(data)), 60))
+        # (modules with long strings: every byte of the first 400, a sample of the rest — the model's parser is quadratic in the input size)
+        if ctx.tier != "quick" and len(data) <= 1200:
+            cuts = list(range(0, len(data)))
+        elif ctx.tier != "quick":
+            cuts = list(range(0, 400)) + sorted(rnd.sample(range(400, len(data)), 300))
+        elif len(data) < 120:
+            cuts = list(range(0, len(data)))
+        else:
+            cuts = sorted(rnd.sample(range(len(data)), 60))
         for c in cuts:
             cases.append(("parse " + (data[:c].hex() or "-"), dict(kind="trunc", insts=texts, k=inst_of(c // 4) if c >= 20 else -1, cut=c, starts=starts)))
         # word substitution
